@@ -368,6 +368,43 @@ struct StrPool {
             try { at(o) = std::move(arg); } catch (...) { extra = ",arg=" + hex(arg); throw; }
             extra = ",arg=" + hex(arg);
         }
+        else if (op == "setmfail") {         // set(char_buffer &&, check_validity)
+            Block<char> d = units<char>(f[2]);
+            ST::char_buffer arg(d.data(), d.size());
+            try { at(o).set(std::move(arg), ST::check_validity); } catch (...) { extra = ",arg=" + hex(arg); throw; }
+            extra = ",arg=" + hex(arg);
+        }
+        else if (op == "ctorbuffail") {      // string(char_buffer &&, check_validity)
+            Block<char> d = units<char>(f[2]);
+            ST::char_buffer arg(d.data(), d.size());
+            try { S tmp(std::move(arg), ST::check_validity); (void)tmp; } catch (...) { extra = ",arg=" + hex(arg); throw; }
+            extra = ",arg=" + hex(arg);
+        }
+        else if (op == "fmtmovefail") {      // a failing format call whose argument is passed as an rvalue: the pool string itself
+            const std::string &k = f[2];
+            S &x = at(o);
+            if (k == "unterminated") { S r = ST::format("abc{", std::move(x)); (void)r; }
+            else if (k == "badchar") { S r = ST::format("{!}", std::move(x)); (void)r; }
+            else if (k == "missing") { S r = ST::format("{}{}", std::move(x)); (void)r; }
+            else if (k == "index") { S r = ST::format("{&3}", std::move(x), 1); (void)r; }
+            else if (k == "badutf8") { S r = ST::format("{}\xC3", std::move(x)); (void)r; }
+            else if (k == "latin1") { S r = ST::format_latin_1("{}{}", std::move(x)); (void)r; }
+            else if (k == "printf") { char *mb = nullptr; size_t ms = 0; FILE *fp = open_memstream(&mb, &ms);
+                                      try { ST::printf(fp, "{}{", std::move(x)); } catch (...) { fclose(fp); free(mb); throw; }
+                                      fclose(fp); free(mb); }
+            else if (k == "writef") { std::ostringstream os; ST::writef(os, "{}{}", std::move(x)); }
+            else { fprintf(stderr, "h_mem: unknown fmtmovefail kind %s\n", k.c_str()); exit(2); }
+        }
+        else if (op == "fmtmovestd") {       // the same with a std::string rvalue argument
+            Block<char> d = units<char>(f[2]);
+            std::string arg(d.data(), d.size());
+            const std::string &k = f[3];
+            try {
+                if (k == "missing") { S r = ST::format("{}{}", std::move(arg)); (void)r; }
+                else { S r = ST::format("{}{", std::move(arg)); (void)r; }
+            } catch (...) { extra = ",arg=" + hex(ST::char_buffer(arg.data(), arg.size())); throw; }
+            extra = ",arg=" + hex(ST::char_buffer(arg.data(), arg.size()));
+        }
         else if (op == "setcfail") { Block<char> d = units<char>(f[2], 1); at(o) = d.data(); }              // operator=(const char*)
         else if (op == "ctorfail") { Block<char> d = units<char>(f[2]); S tmp(d.data(), d.size()); (void)tmp; }
         else if (op == "appfail") { at(o) += char32_t(u64(f[2])); }
